@@ -106,6 +106,7 @@ class RunStream(C.Stream):
     strategies = ("off", "fifo", "lifo", "random")
     p_interrupt = 0.0             # probability of an injected keyboard interrupt
     p_fault = 0.0                 # probability of a failing reporting backend
+    p_both = 0.0                  # probability of a failing reporting backend AND a keyboard interrupt in the same run
     quick_cases = 60
     thorough_cases = 8000
     quick_seconds = 40
@@ -119,15 +120,18 @@ class RunStream(C.Stream):
         case = {"project": project, "strategy": rng.choice(list(self.strategies)), "gseed": rng.randrange(1 << 24),
                 "interrupt": None, "fault": None}
         r = rng.random()
-        if r < self.p_interrupt:
+        # p_both: a backend failure AND a keyboard interrupt in the same run (either may come first: the fault's event
+        # index and the interrupt's completion count are drawn independently)
+        both = r >= self.p_interrupt + self.p_fault and r < self.p_interrupt + self.p_fault + self.p_both
+        if r < self.p_interrupt or both:
             if case["strategy"] != "off" and rng.random() < 0.6:
                 case["interrupt"] = ["quiescent", rng.randint(1, 6)]
             else:
                 case["interrupt"] = ["get", rng.randint(1, 12)]
-        elif r < self.p_interrupt + self.p_fault:
+        if (not case["interrupt"] and r < self.p_interrupt + self.p_fault) or both:
             # the message: usual, EMPTY (str(exception) == "": a bare assert, KeyError()), starting with a line break
             text = rng.choice([FAULT_TEXT, FAULT_TEXT, FAULT_TEXT, "", "\n" + FAULT_TEXT, " "])
-            case["fault"] = {"k": rng.randint(0, 40), "cls": rng.choice(O.FAULT_CLASSES), "text": text}
+            case["fault"] = {"k": rng.randint(0, 40) if not both else rng.randint(0, 25), "cls": rng.choice(O.FAULT_CLASSES), "text": text}
         return case
 
     def impl(self, case):
@@ -152,6 +156,10 @@ class RunStream(C.Stream):
 
     def request(self, case, obs):
         if obs.get("graph") is None:
+            return None
+        if case.get("model_if") == "empty-step" and not G.empty_step_ok():
+            # finding D39: the unchanged session.py never ends a step whose description is "" (the model is the repaired
+            # behaviour); until /repo has the fix the hand-written witnesses are judged by the oracles alone
             return None
         threads = [[int(k), v["parent"]] for k, v in obs.get("threads", {}).items() if v.get("parent") is not None]
         return {"project": case["project"], "graph": obs["graph"], "trace": to_records(obs), "threads": threads}
@@ -208,6 +216,12 @@ class RunStream(C.Stream):
             f.append("interrupt-" + case["interrupt"][0] + ("-delivered" if any(r[0] == "interrupt" for r in obs["trace"]) else "-missed"))
         if case["fault"]:
             f.append("fault-" + case["fault"]["cls"] + ("-fired" if any(r[0] == "backend-raise" for r in obs["trace"]) else "-not-reached"))
+        if case["fault"] and case["interrupt"]:
+            ks = [r[0] for r in obs["trace"] if r[0] in ("backend-raise", "interrupt")]
+            if len(ks) == 2:
+                f.append("fault+interrupt:" + ("fault-first" if ks[0] == "backend-raise" else "interrupt-first"))
+            else:
+                f.append("fault+interrupt:only-" + (ks[0] if ks else "none") + "-happened")
         return f
 
     def shrink(self, case):
